@@ -464,6 +464,13 @@ def replay(rec):
         # known finding only when the receiver is left exactly as it was (the operation ran on a temporary dequantized copy)
         unchanged = type(G[0]) is type(q) and torch.equal(qops.deq(G[0]), qops.deq(q)) and all(torch.equal(getattr(G[0], n_), getattr(q, n_)) for n_ in ("_data", "_scale"))
         key = ["C05/in-place-op-is-noop"] if unchanged else None
+    if probs and op.name == "relu-after-overwritten-result" and isinstance(q, QTensor):
+        # known finding only for its root cause: the result of the operation carries the operand's own scale tensor, so the
+        # in-place copy_ into the result rewrote the OPERAND (its data is untouched, its scale now equals the source's)
+        q2 = rebuild(inp["state"], dt, inp["q"])
+        r2 = torch.relu(q2)
+        aliased = getattr(r2, "_scale", None) is q2._scale and torch.equal(q._data, q2._data) and not torch.equal(q._scale, q2._scale) and torch.equal(q._scale.double(), o._scale.double().expand_as(q._scale))
+        key = ["C05/op-result-aliases-operand-scale"] if aliased else None
     if probs and op.name == "neg" and (q._data == -128).any() if q.qtype.bits == 8 and not q.qtype.is_floating_point else False:
         key = ["C05/neg-of-int8-minimum"]
     return bool(probs), f"{op.name} on state {inp['state']}: " + "; ".join(probs[:3]) if probs else f"{op.name}: equals the float program", key if probs else None
